@@ -3,6 +3,7 @@ import Claripy.AST.Fold
 import Claripy.AST.Meta
 import Claripy.AST.Subst
 import Claripy.AST.Truth
+import Claripy.AST.ACNorm
 /-! S-expression reader/printer and the `ev` / `fold` / `rules` requests of the line protocol. -/
 namespace Driver.Expr
 open Claripy.AST
@@ -104,6 +105,17 @@ def handleRules (toks : List String) : String :=
     | [] => "none"
     | cs => " ;; ".intercalate (cs.map fun (n, e) => n ++ " => " ++ toSexpr e)
   | none => "bad-op"
+
+/-- `ac <lhs> | <rhs>` : is `lhs ⇒ rhs` an associative-commutative rewrite of the node `lhs` (flattening, reordering, merged
+literals, cancelled / dropped repeated operands)?  The operation is that of `lhs`, the width the one `lhs` reports. -/
+def handleAc (toks : List String) : String :=
+  let (pre, post) := toks.span (· ≠ "|")
+  match parseExpr pre, parseExpr (post.drop 1) with
+  | some (.app op args), some rhs =>
+    match ACK.ofOp op, (Expr.app op args).width with
+    | some k, some w => if acEquiv k w (.app op args) rhs then "1" else "0"
+    | _, _ => "bad-op"
+  | _, _ => "bad-op"
 
 /-- `meta <sexpr>` : width / variables / depth / symbolic as the model computes them -/
 def handleMeta (toks : List String) : String :=
